@@ -11,6 +11,32 @@ struct Value *g_eval_ret[G_MAXEVAL];  /* what each returned */
 struct GSnap { struct { long i; } _value; struct { unsigned short _minor; unsigned char _level; unsigned char _major; } _type; int _flags; };
 struct GSnap g_eval_snap[G_MAXEVAL];
 struct Expression *g_eval_node[G_MAXEVAL];
+struct Value g_operand0, g_operand1, g_operand2, g_operand3;   /* the objects the children return (distinct, static: keeps solver terms simple) */
+long g_eval_payload;                 /* havocked by every child evaluation: the payload bits it returns */
+
+/* payload objects of non-null heap-typed values: only for the payload types the job names
+ * (the struct mirrors exist only where the rendered code mentions them) */
+#ifdef PAYLOAD_IMAGINARY
+#define ENS_PAYLOAD_IMAGINARY __CPROVER_ensures((__exc == 0 && V_IS(__CPROVER_return_value, IMAGINARY) && !V_ISNULL(__CPROVER_return_value)) ==> IS_FRESH(__CPROVER_return_value->_value.p, sizeof(struct Imaginary)))
+#else
+#define ENS_PAYLOAD_IMAGINARY
+#endif
+#ifdef PAYLOAD_LITERAL
+#define ENS_PAYLOAD_LITERAL __CPROVER_ensures((__exc == 0 && V_IS(__CPROVER_return_value, LITERAL) && !V_ISNULL(__CPROVER_return_value)) ==> IS_FRESH(__CPROVER_return_value->_value.p, sizeof(struct std_string)))
+#else
+#define ENS_PAYLOAD_LITERAL
+#endif
+#ifdef PAYLOAD_TABCHAR
+#define ENS_PAYLOAD_TABCHAR __CPROVER_ensures((__exc == 0 && V_IS(__CPROVER_return_value, TABCHAR) && !V_ISNULL(__CPROVER_return_value)) ==> IS_FRESH(__CPROVER_return_value->_value.p, sizeof(struct vec_char)))
+#else
+#define ENS_PAYLOAD_TABCHAR
+#endif
+#ifdef PAYLOAD_COMPLEX
+#define ENS_PAYLOAD_COMPLEX __CPROVER_ensures((__exc == 0 && V_IS(__CPROVER_return_value, COMPLEX) && !V_ISNULL(__CPROVER_return_value)) ==> IS_FRESH(__CPROVER_return_value->_value.p, sizeof(struct Complex)))
+#else
+#define ENS_PAYLOAD_COMPLEX
+#endif
+#define ENS_PAYLOADS ENS_PAYLOAD_IMAGINARY ENS_PAYLOAD_LITERAL ENS_PAYLOAD_TABCHAR ENS_PAYLOAD_COMPLEX
 
 /* Value& Expression::value(Context&) -- any node, as seen by its parent.
  * Normal return: a valid value of ANY tag, null or not, temporary or variable-owned.
@@ -18,14 +44,27 @@ struct Expression *g_eval_node[G_MAXEVAL];
 struct Value *VCALL_Expression_value(struct Expression *e, struct Context *ctx)
 __CPROVER_requires(__exc == 0)
 __CPROVER_requires(g_eval_n >= 0 && g_eval_n < G_MAXEVAL)
-__CPROVER_assigns(g_eval_n, g_eval_ret[g_eval_n], g_eval_snap[g_eval_n], g_eval_node[g_eval_n], __exc, __exc_type, __exc_obj)
+__CPROVER_assigns(g_eval_n, g_eval_ret[g_eval_n], g_eval_snap[g_eval_n], g_eval_node[g_eval_n], g_eval_payload, __exc, __exc_type, __exc_obj)
+__CPROVER_assigns(g_eval_n == 0: VALUE_FIELDS(&g_operand0); g_eval_n == 1: VALUE_FIELDS(&g_operand1); g_eval_n == 2: VALUE_FIELDS(&g_operand2); g_eval_n == 3: VALUE_FIELDS(&g_operand3))
 __CPROVER_ensures(__exc == 0 || __exc == 1)
 __CPROVER_ensures(__exc == 1 ==> (PTR_EQ(__exc_type, G2C_EXC_RuntimeError) && IS_FRESH(__exc_obj, sizeof(struct RuntimeError)) && g_eval_n == __CPROVER_old(g_eval_n)))
-__CPROVER_ensures(__exc == 0 ==> IS_FRESH(__CPROVER_return_value, sizeof(struct Value)))
+/* each evaluation returns its own object */
+__CPROVER_ensures((__exc == 0 && __CPROVER_old(g_eval_n) == 0) ==> PTR_EQ(__CPROVER_return_value, &g_operand0))
+__CPROVER_ensures((__exc == 0 && __CPROVER_old(g_eval_n) == 1) ==> PTR_EQ(__CPROVER_return_value, &g_operand1))
+__CPROVER_ensures((__exc == 0 && __CPROVER_old(g_eval_n) == 2) ==> PTR_EQ(__CPROVER_return_value, &g_operand2))
+__CPROVER_ensures((__exc == 0 && __CPROVER_old(g_eval_n) == 3) ==> PTR_EQ(__CPROVER_return_value, &g_operand3))
+/* one write through the widest union member ties all member views of the fresh object together */
+__CPROVER_ensures(__exc == 0 ==> SET_EQ(__CPROVER_return_value->_value.i, g_eval_payload))
 __CPROVER_ensures(__exc == 0 ==> VALID_TAG(__CPROVER_return_value))
+ENS_PAYLOADS
 __CPROVER_ensures(__exc == 0 ==> g_eval_n == __CPROVER_old(g_eval_n) + 1)
 __CPROVER_ensures(__exc == 0 ==> PTR_EQ(g_eval_ret[__CPROVER_old(g_eval_n)], __CPROVER_return_value))
 __CPROVER_ensures(__exc == 0 ==> PTR_EQ(g_eval_node[__CPROVER_old(g_eval_n)], e))
-__CPROVER_ensures(__exc == 0 ==> V_SAME(&g_eval_snap[__CPROVER_old(g_eval_n)], __CPROVER_return_value) && g_eval_snap[__CPROVER_old(g_eval_n)]._value.i == __CPROVER_return_value->_value.i)
+/* the snapshot is DEFINED as the returned value's bits (assignment, so that the solver sees one term) */
+__CPROVER_ensures(__exc == 0 ==> (SET_EQ(g_eval_snap[__CPROVER_old(g_eval_n)]._flags, __CPROVER_return_value->_flags) &&
+                                  SET_EQ(g_eval_snap[__CPROVER_old(g_eval_n)]._type._major, __CPROVER_return_value->_type._major) &&
+                                  SET_EQ(g_eval_snap[__CPROVER_old(g_eval_n)]._type._minor, __CPROVER_return_value->_type._minor) &&
+                                  SET_EQ(g_eval_snap[__CPROVER_old(g_eval_n)]._type._level, __CPROVER_return_value->_type._level) &&
+                                  SET_EQ(g_eval_snap[__CPROVER_old(g_eval_n)]._value.i, __CPROVER_return_value->_value.i)))
 ;
 #endif
